@@ -52,7 +52,10 @@ def check(ck):
         okk = bool(enc) and any(h.type is None or dump(h.type) in ("BaseException", "Exception") for h in enc[0].handlers)
         ck.require(okk, "C19.1", "%s: %s() inside the catch-all try" % (q.fn(fs), nm), "guarded",
                    "%s() is outside the try whose handler closes the connection: a fault there leaves the cached connection in a broken state" % nm, q.loc(fs, n))
-    hs = [h for h in g.live_nodes() if h.kind == "handler"]
+    # the handlers of the try that encloses the exchange (a try elsewhere in the function - e.g. around the draining of an error
+    # reply - has its own business)
+    region_tries = [t for t in tries if all(q.try_body_contains(t, n_.ast) for n_ in sites.values())]
+    hs = [h for h in g.live_nodes() if h.kind == "handler" and any(h.ast in t.handlers for t in region_tries)]
     ck.require(len(hs) == 1, "C19.1", "%s: one handler" % q.fn(fs), "single catch-all handler", "found %d handlers" % len(hs), q.loc(fs, fs.node))
     for h in hs:
         def _is_close(c):
@@ -133,7 +136,10 @@ def check(ck):
     ck.require(len(rz) == 1, "C19.2", "%s: raise TransportError" % q.fn(fs), "present", "no TransportError is raised for a non-200 reply", q.loc(fs, fs.node))
     for rn in rz:
         a = rn.ast.exc.args
-        okk = len(a) == 4 and dump(a[0]) == "host + handler" and own_status(rn, a[1])
+        # the URL: an expression built from the host and the handler this call was given (further arguments are the exception's own)
+        turl = prov.origin(g, rn, a[0]) if a else None
+        has_url = turl is not None and prov.contains(turl, lambda x: x == ("param", "host")) and prov.contains(turl, lambda x: x == ("param", "handler"))
+        okk = len(a) >= 4 and has_url and own_status(rn, a[1])
         ck.require(okk, "C19.2", "%s: TransportError(host + handler, response.status, ...)" % q.fn(fs), "URL and status",
                    "TransportError is raised with `%s`" % [dump(x) for x in a], q.loc(fs, rn))
         # every normal path on the false edge of the status test ends in this raise
@@ -289,10 +295,12 @@ def check(ck):
     bi = [(n, c) for n in gte.live_nodes() for c in node_calls(n)
           if dump(c.func) in ("ProtocolError.__init__", "super().__init__", "super(TransportError, self).__init__")]
     okk = False
-    if len(bi) == 1 and not bi[0][1].keywords and len(fte.params) == 5:
+    if len(bi) == 1 and not bi[0][1].keywords and len(fte.params) >= 5:
+        # (further, optional parameters of TransportError - a body, headers - are its own business: the base gets the first four)
         got = [prov.origin(gte, bi[0][0], a) for a in bi[0][1].args]
-        want = [("param", p_) for p_ in fte.params]
-        okk = got == (want if dump(bi[0][1].func) == "ProtocolError.__init__" else want[1:])
+        want = [("param", p_) for p_ in fte.params[:5]]
+        extra_ok = len(fte.params) == 5 or len(fte.node.args.defaults) >= len(fte.params) - 5
+        okk = extra_ok and got == (want if dump(bi[0][1].func) == "ProtocolError.__init__" else want[1:])
     ck.require(okk, "C19.4", "%s: ProtocolError.__init__(self, url, errcode, errmsg, msg)" % q.fn(fte), "all four arguments, in order",
                "TransportError does not initialise its base with (url, errcode, errmsg, msg): raising it for a non-200 reply fails (TypeError) or "
                "loses the URL / status", q.loc(fte, fte.node))
